@@ -97,6 +97,10 @@ func c05Judge(w *mon.W, c c05Case) {
 			w.HitIf(x*x >= v && x*x < 2*v, "t-x2-just-above-V")
 			want, _ := tRef(v, x)
 			d := math.Abs(got - want)
+			if math.IsNaN(got) {
+				w.Violate("t-CDF", fmt.Sprintf("TDist{%g}.CDF(%g) is NaN, reference %.15g", v, x, want), one(x))
+				continue
+			}
 			if d > 1e-9 {
 				// adjudicate: a violation needs the closed form, or both
 				// mathext and the quadrature of the density, to disagree
@@ -188,12 +192,12 @@ func c05Judge(w *mon.W, c c05Case) {
 		if n.Mean() != mu {
 			w.Violate("mean", fmt.Sprintf("NormalDist{%g,%g}.Mean()=%g", mu, sigma, n.Mean()), c)
 		}
-		if math.Abs(n.Variance()-sigma*sigma) > 2*ulp(sigma*sigma) {
+		if !(math.Abs(n.Variance()-sigma*sigma) <= 2*ulp(sigma*sigma)) {
 			w.Violate("variance", fmt.Sprintf("NormalDist{%g,%g}.Variance()=%g want %g", mu, sigma, n.Variance(), sigma*sigma), c)
 		}
 		wl, wh := ref.F64(ref.Sub(ref.NF(mu), ref.Mul(ref.NF(3), ref.NF(sigma)))), ref.F64(ref.Add(ref.NF(mu), ref.Mul(ref.NF(3), ref.NF(sigma))))
 		tb := 2 * (ulp(mu) + ulp(3*sigma))
-		if math.Abs(lo-wl) > tb || math.Abs(hi-wh) > tb {
+		if !(math.Abs(lo-wl) <= tb && math.Abs(hi-wh) <= tb) {
 			w.Violate("bounds", fmt.Sprintf("NormalDist{%g,%g}.Bounds()=(%g,%g) want (%g,%g)", mu, sigma, lo, hi, wl, wh), c)
 		}
 	case "norm-rand":
@@ -356,7 +360,23 @@ type c05dist interface {
 // c05Laws: range, monotonicity, reflection symmetry, limits, PDF>=0 and
 // integral(PDF) = delta CDF on one distribution over the sorted points Xs.
 func c05Laws(w *mon.W, c c05Case, d c05dist, centre, scale float64, name string) {
-	peak := d.PDF(centre)
+	// reference density (only used to scale tolerances and to find out where
+	// the density varies): closed forms, not the library's PDF
+	var dens func(x float64) float64
+	switch t := d.(type) {
+	case stats.NormalDist:
+		dens = func(x float64) float64 {
+			z := (x - t.Mu) / t.Sigma
+			return math.Exp(-z*z/2) / (t.Sigma * math.Sqrt(2*math.Pi))
+		}
+	case stats.TDist:
+		dens = func(x float64) float64 { return ref.TPDF(t.V, x) }
+	}
+	peak := dens(centre)
+	if lp := d.PDF(centre); !(math.Abs(lp-peak) <= 1e-9*peak) {
+		w.Violate("pdf-peak", fmt.Sprintf("%s: PDF at the centre is %.15g, the density there is %.15g", name, lp, peak), c)
+		return
+	}
 	xs := mon.Un(c.Xs)
 	sort.Float64s(xs)
 	bad := func(kind, msg string) { w.Violate(kind, name+": "+msg, c) }
@@ -387,11 +407,36 @@ func c05Laws(w *mon.W, c c05Case, d c05dist, centre, scale float64, name string)
 			var g float64
 			w.Eval("CDF(reflection)")
 			mon.Call(func() { g = d.CDF(xm) })
-			if math.Abs(f+g-1) > 1e-12 {
+			if !(math.Abs(f+g-1) <= 1e-12) {
 				bad("symmetry", fmt.Sprintf("CDF(%.17g)+CDF(%.17g)=%.17g", x, xm, f+g))
 			}
 		}
 	}
+	// close pairs: a downward step between two nearby arguments is hidden
+	// from the comparison of sample points, which are far apart
+	closeOK := true
+	if t, ok := d.(stats.TDist); ok && t.V > 1e4 {
+		// beyond the statement's V <= 1e4 the unchanged library's CDF
+		// carries noise of a few 1e-12 between neighbouring arguments
+		closeOK = false
+	}
+	for k := 0; closeOK && k < len(xs); k += 2 {
+		x, f := xs[k], cdfs[k]
+		for _, dx := range []float64{0, 1e-12 * scale, 1e-9 * scale, 1e-6 * scale, 1e-3 * scale} {
+			x2 := x + dx
+			if dx == 0 || x2 == x {
+				x2 = math.Nextafter(x, math.Inf(1))
+			}
+			var f2 float64
+			w.Eval("CDF(close pair)")
+			mon.Call(func() { f2 = d.CDF(x2) })
+			if !(f2 >= f-1e-12) {
+				bad("monotone-close-pair", fmt.Sprintf("CDF(%.17g)=%.17g < CDF(%.17g)=%.17g", x2, f2, x, f))
+				break
+			}
+		}
+	}
+	w.Hit("close-pairs-probed")
 	w.Eval("CDF(limits)")
 	if lo, hi := d.CDF(math.Inf(-1)), d.CDF(math.Inf(1)); lo != 0 || hi != 1 {
 		bad("limits", fmt.Sprintf("CDF(-Inf)=%g CDF(+Inf)=%g", lo, hi))
@@ -403,12 +448,60 @@ func c05Laws(w *mon.W, c c05Case, d c05dist, centre, scale float64, name string)
 			continue
 		}
 		w.Eval("integral(PDF)")
-		integ := ref.GLAdaptive(d.PDF, a, b, 1e-13)
 		want := cdfs[k+3] - cdfs[k]
-		// quadrature nodes are rounded to float64: with |x| >> scale that
-		// alone moves the integral by up to (total variation of the
-		// density) * ulp(x) <= 2*peak*ulp(x)
-		tol := 1e-9 + 8*ulp(math.Max(math.Abs(a), math.Abs(b)))*peak
+		// Tolerance: 1e-9 absolute as the accuracy clause suggests, but in
+		// the tails (mass of the interval below 1e-3) no more than 1e-6 of
+		// that mass plus 1e-15 (rounding of a CDF difference near 1) — an
+		// absolute 1e-9 alone would leave everything beyond six standard
+		// units unjudged. Quadrature nodes are rounded to float64: with
+		// |x| >> scale that moves the integral by up to (total variation of
+		// the density over the interval) * ulp(x). Beyond the statement's
+		// V <= 1e4 only the absolute form applies.
+		tv := math.Abs(dens(a) - dens(b))
+		if a <= centre && centre <= b {
+			tv = 2 * peak
+		}
+		tol := 1e-9
+		if closeOK && math.Abs(want) < 1e-3 {
+			tol = 1e-6*math.Abs(want) + 1e-15
+		}
+		// panel tolerance of the quadrature (absolute): follows the mass
+		integ := ref.GLAdaptive(d.PDF, a, b, math.Max(math.Min(1e-13, 1e-2*tol), 1e-300))
+		tol += 8 * ulp(math.Max(math.Abs(a), math.Abs(b))) * tv
+		w.HitIf(closeOK && math.Abs(want) < 1e-9 && math.Abs(want) > 1e-13, "pdf-integral-in-the-tail(mass<1e-9)")
+		if e0 := math.Abs(integ - want); closeOK && e0 > 2e-11 && e0 <= tol {
+			// The CDF's error changes by e0 across this interval. A smooth
+			// drift halves with the interval; a step (an evaluation branch or
+			// an iteration count changing between two arguments) does not.
+			// Follow the larger half down: if the discrepancy survives to a
+			// pair of arguments so close that the density cannot account for
+			// it, the CDF steps there, and a downward step breaks monotonicity.
+			w.Hit("cdf-error-drift-followed")
+			lo, hi, flo, fhi := a, b, cdfs[k], cdfs[k+3]
+			for it := 0; it < 80; it++ {
+				mid := lo + (hi-lo)/2
+				if !(mid > lo && mid < hi) {
+					break
+				}
+				var fm float64
+				w.Eval("CDF(step hunt)")
+				mon.Call(func() { fm = d.CDF(mid) })
+				qt := math.Max(1e-14*math.Abs(fhi-flo), 1e-300)
+				dl := math.Abs((fm - flo) - ref.GLAdaptive(d.PDF, lo, mid, qt))
+				dr := math.Abs((fhi - fm) - ref.GLAdaptive(d.PDF, mid, hi, qt))
+				if dl >= dr {
+					hi, fhi = mid, fm
+				} else {
+					lo, flo = mid, fm
+				}
+				if math.Max(dl, dr) < 1e-11 {
+					break
+				}
+			}
+			if !(fhi >= flo-1e-12) {
+				bad("monotone-step", fmt.Sprintf("CDF(%.17g)=%.17g > CDF(%.17g)=%.17g (found by following a discrepancy of %.3g between the CDF difference and the integral of PDF over [%g,%g])", lo, flo, hi, fhi, e0, a, b))
+			}
+		}
 		if !w.Err("integral-PDF-vs-CDF", math.Abs(integ-want), tol) {
 			bad("pdf-integral", fmt.Sprintf("integral of PDF over [%g,%g] = %.12g but CDF difference = %.12g", a, b, integ, want))
 		}
@@ -418,7 +511,7 @@ func c05Laws(w *mon.W, c c05Case, d c05dist, centre, scale float64, name string)
 func c05Run(r *mon.Run) {
 	r.Rule("NormalDist: Mu in +-1e6, Sigma in [1e-6,1e6]; TDist: V log-uniform in [0.1,1e4] and integers; x over +-40 standard units uniform, log-uniform in |x| from 1e-12, and dense near 0 / near x^2=V; InvCDF: p from 1e-300 to 1-1e-16 plus 0,1,outside; Rand: 50k seeded draws (DKW, alpha=1e-9); DeltaDist step. Non-trivial = hits a hostile class; distinct by hash of (op,parameters,points).")
 	r.Assume("reference Phi: 384-bit erfc (series/continued fraction) written for this harness; reference t CDF: finite trigonometric sums for integer V, gonum mathext RegIncBeta otherwise, adjudicated by Gauss-Legendre quadrature of the density; Go's math package is trusted")
-	r.Gate("t-tiny-x-large-V", "t-x2-just-below-V", "t-x2-just-above-V", "p<1e-200", "p>1-1e-12", "integer-V", "non-integer-V", "inv-0", "inv-1", "inv-outside", "delta-at-T")
+	r.Gate("t-tiny-x-large-V", "t-x2-just-below-V", "t-x2-just-above-V", "p<1e-200", "p>1-1e-12", "integer-V", "non-integer-V", "inv-0", "inv-1", "inv-outside", "delta-at-T", "close-pairs-probed", "pdf-integral-in-the-tail(mass<1e-9)")
 
 	randNormal := func(rng *mon.Rand) (float64, float64) {
 		mu := rng.Uniform(-1e6, 1e6)
